@@ -1255,7 +1255,7 @@ class Dataset:
                     'to obtain the sort key from the example?\n'
                     f'self: \n{repr(self)}'
                 ) from None
-            sort_order = sort_fn(keys)
+            sort_order = sort_fn(keys, reverse=reverse)
         else:
             sort_values = [key_fn(example) for example in self]
             sort_order = [
